@@ -143,3 +143,51 @@ def register(reg):
                                                           'self.history.db.g_commits == old(self.history.db.g_commits)'),
                  ('handed-over', 'len(flush_data.headers) == 0 and len(flush_data.block_tx_hashes) == 0')],
         portfolio=True, props=['C04', 'C02'])
+
+    # ---- DB.flush_dbs: the ORDER of the durable writes of one forward flush (C04) ------------------------------------------------
+    # ghost g_log records the durable steps: 1 meta files (flush_fs), 2 history batch (flush_history), 3 UTXO batch incl. state
+    # (flush_utxo_db), 4 the second, direct state put.  A crash after any prefix of this order is recoverable (files are only
+    # appended above the pointers the state refers to; a history batch without its UTXO batch is scrubbed by clear_excess: lemma
+    # history_flush_crash_is_scrubbed); any other order is not - which is why the order is an obligation.
+    reg.classes[DBK].ghost['g_log'] = List(Int)
+    reg.classes[ST].fields.update({'flush_time': Real, 'sync_time': Real})
+    V_FS = Contract(DBK + '.flush_fs', params={'flush_data': Obj(FD)}, raises={'AssertionError': []}, assumes_inv=False, maintains_inv=False,
+                    modifies=['self.g_log', 'self.fs_height', 'self.fs_tx_count', 'self.headers_file.g_data', 'self.hashes_file.g_data',
+                              'self.tx_counts_file.g_data', 'flush_data.headers', 'flush_data.block_tx_hashes'],
+                    ensures=['self.g_log == snoc(old(self.g_log), 1)'],
+                    trusted='flush_fs writes the meta files only (proved: d04 flush_fs, clause utxo-and-history-databases-untouched); its '
+                            'preconditions are the assertions it makes itself')
+    V_HIST = Contract(DBK + '.flush_history', params={}, raises={}, assumes_inv=False, maintains_inv=False,
+                      modifies=['self.g_log', 'self.history.flush_count', 'self.history.db.g_map', 'self.history.db.g_commits',
+                                'self.history.unflushed', 'self.history.unflushed_count'],
+                      ensures=['self.g_log == snoc(old(self.g_log), 2)', 'self.history.flush_count == old(self.history.flush_count) + 1'],
+                      trusted='flush_history is History.flush: one atomic history batch, flush count + 1 (proved: c01 History.flush)')
+    V_UTXO = Contract(DBK + '.flush_utxo_db', params={'flush_data': Obj(FD)}, raises={}, assumes_inv=False, maintains_inv=False,
+                      modifies=['self.g_log', 'self.state', 'self.utxo_db.g_map', 'self.utxo_db.g_commits', 'flush_data.adds',
+                                'flush_data.deletes', 'flush_data.undo_infos'],
+                      ensures=['self.g_log == snoc(old(self.g_log), 3)'],
+                      trusted='flush_utxo_db is one atomic UTXO batch with the state record inside (proved: d04 flush_utxo_db)')
+    V_STATE = Contract(DBK + '.write_utxo_state', params={'batch': Obj(KV)}, raises={}, assumes_inv=False, maintains_inv=False,
+                       modifies=['self.g_log', 'batch.g_map', 'batch.g_commits'],
+                       ensures=['self.g_log == snoc(old(self.g_log), 4)'],
+                       trusted='write_utxo_state(self.utxo_db) is one direct put of the state record (T-LDB put)')
+    reg.contract(
+        DBK + '.flush_dbs', params={'flush_data': Obj(FD), 'flush_utxos': Bool, 'size_remaining': Real},
+        # ZeroDivisionError: the throughput statistics after the writes divide by (interval + 0.01); time.time() is modelled as an
+        # arbitrary real, so a clock stepping back by exactly 10 ms is not excluded - it cannot affect what was written
+        raises={'AssertionError': [], 'ZeroDivisionError': []}, assumes_inv=False, maintains_inv=False,
+        modifies=['self.g_log', 'self.state', 'self.last_flush_state', 'self.fs_height', 'self.fs_tx_count', 'self.headers_file.g_data',
+                  'self.hashes_file.g_data', 'self.tx_counts_file.g_data', 'self.history.flush_count', 'self.history.db.g_map',
+                  'self.history.db.g_commits', 'self.history.unflushed', 'self.history.unflushed_count', 'self.utxo_db.g_map',
+                  'self.utxo_db.g_commits', 'flush_data.headers', 'flush_data.block_tx_hashes', 'flush_data.adds', 'flush_data.deletes',
+                  'flush_data.undo_infos', 'flush_data.state.flush_count', 'flush_data.state.flush_time', 'flush_data.state.sync_time'],
+        views={DBK + '.flush_fs': V_FS, DBK + '.flush_history': V_HIST, DBK + '.flush_utxo_db': V_UTXO, DBK + '.write_utxo_state': V_STATE},
+        ghost={('before', 'self.flush_utxo_db(flush_data)'):
+               ['check("utxo-state-carries-the-flush-count-of-the-history-just-flushed", flush_data.state.flush_count == self.history.flush_count)',
+                'check("files-then-history-before-the-utxo-commit", self.g_log == snoc(snoc(old(self.g_log), 1), 2))']},
+        ensures=[('nothing-to-flush-nothing-written', 'implies(old(flush_data.state.height) == old(self.state.height), self.g_log == old(self.g_log))'),
+                 ('history-only-flush', 'implies(old(flush_data.state.height) != old(self.state.height) and not flush_utxos, '
+                                        'self.g_log == snoc(snoc(old(self.g_log), 1), 2))'),
+                 ('full-flush', 'implies(old(flush_data.state.height) != old(self.state.height) and flush_utxos, '
+                                'self.g_log == snoc(snoc(snoc(snoc(old(self.g_log), 1), 2), 3), 4))')],
+        props=['C04'])
